@@ -1685,6 +1685,41 @@ impl Context {
                 .push((Arc::new(Value::None), Instruction::PushStateOffset(offset)));
         }
     }
+    /// State bookkeeping for a construct whose arms are alternatives (`match`). Every stateful
+    /// call site owns its own cells, so the cells of the arms follow each other in the layout
+    /// and every arm must leave the state cursor at the same position. The pending offset is
+    /// flushed so that all arms start from the same cursor; returns `push_sum` at that point.
+    fn begin_state_branches(&mut self) -> u64 {
+        self.consume_and_insert_pushoffset();
+        self.get_ctxdata().push_sum
+    }
+    /// Start an arm whose cells follow `cells_before` cells of the arms compiled before it.
+    fn begin_state_arm(&mut self, base_push_sum: u64, cells_before: u64) {
+        let ctx = self.get_ctxdata();
+        ctx.push_sum = base_push_sum;
+        ctx.next_state_offset = (cells_before > 0).then_some(cells_before);
+    }
+    /// End an arm: flush its pending offset and return the block the arm ends in.
+    fn end_state_arm(&mut self) -> usize {
+        self.consume_and_insert_pushoffset();
+        self.get_ctxdata().current_bb
+    }
+    /// `arms` lists (last block, number of cells) of every arm in layout order: each arm ends by
+    /// skipping the cells of the arms after it.
+    fn finish_state_branches(&mut self, base_push_sum: u64, arms: &[(usize, u64)]) {
+        let total = arms.iter().map(|(_, size)| size).sum::<u64>();
+        let mut upto = 0;
+        for (last_bidx, size) in arms {
+            upto += size;
+            if total > upto {
+                self.get_current_fn().body.get_mut(*last_bidx).unwrap().0.push((
+                    Arc::new(Value::None),
+                    Instruction::PushStateOffset(total - upto),
+                ));
+            }
+        }
+        self.get_ctxdata().push_sum = base_push_sum + total;
+    }
     fn emit_fncall(
         &mut self,
         idx: u64,
@@ -3444,6 +3479,10 @@ impl Context {
             .iter()
             .find(|arm| matches!(&arm.pattern, MatchPattern::Wildcard));
 
+        let base_push_sum = self.begin_state_branches();
+        let mut arm_ends: Vec<(usize, u64)> = vec![];
+        let mut cells_before = 0;
+
         // Record current block where Switch will be placed
         let switch_bidx = self.get_ctxdata().current_bb;
 
@@ -3462,10 +3501,8 @@ impl Context {
                 self.add_new_basicblock();
                 let block_idx = self.get_ctxdata().current_bb as u64;
 
-                // Reset state offset at the start of each arm
-                // This ensures each arm starts with a clean state context
-                self.get_ctxdata().next_state_offset = None;
-                self.get_ctxdata().push_sum = 0;
+                // Every arm starts from the same state cursor
+                self.begin_state_arm(base_push_sum, cells_before);
 
                 // Extract value from the tagged union if there's a binding pattern and payload type
                 if let MatchPattern::Constructor(_, Some(inner_pattern)) = &arm.pattern
@@ -3483,6 +3520,9 @@ impl Context {
                 }
 
                 let (result_val, _, arm_states) = self.eval_expr(arm.body);
+                let arm_size = arm_states.iter().map(|s| s.total_size()).sum::<u64>();
+                arm_ends.push((self.end_state_arm(), arm_size));
+                cells_before += arm_size;
                 ((*tag, block_idx), result_val, arm_states)
             })
             .fold(
@@ -3504,11 +3544,10 @@ impl Context {
             self.add_new_basicblock();
             let block_idx = self.get_ctxdata().current_bb as u64;
 
-            // Reset state offset for default arm
-            self.get_ctxdata().next_state_offset = None;
-            self.get_ctxdata().push_sum = 0;
-
+            self.begin_state_arm(base_push_sum, cells_before);
             let (result_val, _, arm_states) = self.eval_expr(arm.body);
+            let arm_size = arm_states.iter().map(|s| s.total_size()).sum::<u64>();
+            arm_ends.push((self.end_state_arm(), arm_size));
             all_arm_states.push(arm_states);
             case_results.push(result_val);
             Some(block_idx)
@@ -3517,47 +3556,7 @@ impl Context {
             None
         };
 
-        // Calculate maximum state size across all arms
-        let arm_state_sizes: Vec<u64> = all_arm_states
-            .iter()
-            .map(|states| states.iter().map(|s| s.total_size()).sum::<u64>())
-            .collect();
-        let max_state_size = arm_state_sizes.iter().copied().max().unwrap_or(0);
-
-        // Insert PushStateOffset for arms with smaller state sizes
-        // This ensures all arms have the same state offset when merging
-        for (i, ((_tag, block_idx), state_size)) in
-            case_blocks.iter().zip(arm_state_sizes.iter()).enumerate()
-        {
-            if *state_size < max_state_size {
-                let offset = max_state_size - state_size;
-                let block = self
-                    .get_current_fn()
-                    .body
-                    .get_mut(*block_idx as usize)
-                    .unwrap();
-                // Insert PushStateOffset at the end of the block (before result)
-                block
-                    .0
-                    .push((Arc::new(Value::None), Instruction::PushStateOffset(offset)));
-            }
-        }
-
-        // Handle default block state adjustment if it exists
-        if let Some(default_idx) = default_block_idx {
-            let default_state_size = arm_state_sizes.last().copied().unwrap_or(0);
-            if default_state_size < max_state_size {
-                let offset = max_state_size - default_state_size;
-                let block = self
-                    .get_current_fn()
-                    .body
-                    .get_mut(default_idx as usize)
-                    .unwrap();
-                block
-                    .0
-                    .push((Arc::new(Value::None), Instruction::PushStateOffset(offset)));
-            }
-        }
+        self.finish_state_branches(base_push_sum, &arm_ends);
 
         // Generate merge block with PhiSwitch
         self.add_new_basicblock();
@@ -3588,9 +3587,7 @@ impl Context {
             _ => panic!("expected Switch instruction"),
         }
 
-        // Use the largest arm's state as the result state
-        // This represents the maximum state size across all branches
-        // But we need to collect all states from all arms for the function's state signature
+        // The cells of the arms follow each other in the function's state layout
         for arm_states in all_arm_states {
             states.extend(arm_states);
         }
@@ -3654,6 +3651,10 @@ impl Context {
             .iter()
             .find(|arm| matches!(&arm.pattern, MatchPattern::Wildcard));
 
+        let base_push_sum = self.begin_state_branches();
+        let mut arm_ends: Vec<(usize, u64)> = vec![];
+        let mut cells_before = 0;
+
         // Record current block where Switch will be placed
         let switch_bidx = self.get_ctxdata().current_bb;
 
@@ -3671,7 +3672,11 @@ impl Context {
             .map(|(arm, lit_val)| {
                 self.add_new_basicblock();
                 let block_idx = self.get_ctxdata().current_bb as u64;
+                self.begin_state_arm(base_push_sum, cells_before);
                 let (result_val, _, arm_states) = self.eval_expr(arm.body);
+                let arm_size = arm_states.iter().map(|s| s.total_size()).sum::<u64>();
+                arm_ends.push((self.end_state_arm(), arm_size));
+                cells_before += arm_size;
                 ((*lit_val, block_idx), result_val, arm_states)
             })
             .fold(
@@ -3692,7 +3697,10 @@ impl Context {
             // Wildcard pattern - just evaluate the body
             self.add_new_basicblock();
             let block_idx = self.get_ctxdata().current_bb as u64;
+            self.begin_state_arm(base_push_sum, cells_before);
             let (result_val, _, arm_states) = self.eval_expr(arm.body);
+            let arm_size = arm_states.iter().map(|s| s.total_size()).sum::<u64>();
+            arm_ends.push((self.end_state_arm(), arm_size));
             all_states.extend(arm_states);
             case_results.push(result_val);
             Some(block_idx)
@@ -3700,6 +3708,8 @@ impl Context {
             // Exhaustive match - no default block needed
             None
         };
+
+        self.finish_state_branches(base_push_sum, &arm_ends);
 
         // Generate merge block with PhiSwitch
         self.add_new_basicblock();
@@ -4152,6 +4162,10 @@ impl Context {
                     self.push_inst(Instruction::CastFtoI(elem_val))
                 };
 
+                let base_push_sum = self.begin_state_branches();
+                let mut arm_ends: Vec<(usize, u64)> = vec![];
+                let mut cells_before = 0;
+
                 // Record current block for Switch instruction
                 let switch_bb = self.get_ctxdata().current_bb;
 
@@ -4171,8 +4185,12 @@ impl Context {
                 for (val, subtree) in cases {
                     self.add_new_basicblock();
                     let block_idx = self.get_ctxdata().current_bb as u64;
+                    self.begin_state_arm(base_push_sum, cells_before);
                     let (result, states) =
                         self.compile_decision_tree(subtree, tuple_val, tuple_ty, elem_types);
+                    let arm_size = states.iter().map(|s| s.total_size()).sum::<u64>();
+                    arm_ends.push((self.end_state_arm(), arm_size));
+                    cells_before += arm_size;
                     case_blocks.push((*val, block_idx));
                     case_results.push(result);
                     all_states.extend(states);
@@ -4182,14 +4200,19 @@ impl Context {
                 let default_block_idx = if let Some(default_tree) = default {
                     self.add_new_basicblock();
                     let block_idx = self.get_ctxdata().current_bb as u64;
+                    self.begin_state_arm(base_push_sum, cells_before);
                     let (result, states) =
                         self.compile_decision_tree(default_tree, tuple_val, tuple_ty, elem_types);
+                    let arm_size = states.iter().map(|s| s.total_size()).sum::<u64>();
+                    arm_ends.push((self.end_state_arm(), arm_size));
                     case_results.push(result);
                     all_states.extend(states);
                     Some(block_idx)
                 } else {
                     None
                 };
+
+                self.finish_state_branches(base_push_sum, &arm_ends);
 
                 // Generate merge block
                 self.add_new_basicblock();
